@@ -190,8 +190,15 @@ def main(argv=None):
     )
     for k, v in sorted(agg["counters"].items()):
         print(f"   {k}: {v}")
+    nviol = 0
     for ln in lines:
+        if ln.startswith("VIOLATION"):
+            nviol += 1
+        if nviol > 25 and not ln.startswith("KNOWN-FINDING"):
+            continue
         print(ln)
+    if nviol > 25:
+        print(f"... {nviol - 25} further VIOLATION classes not printed (all replays are under {rdir})")
     if agg["errors"]:
         for e in agg["errors"][:5]:
             print("HARNESS-ERROR shard failed:", e[:2000])
